@@ -101,6 +101,15 @@ CLAIMED = {
              "through hook H3 and compared with the model programs, message-level interleavings are replayed through the public actor API, "
              "real /provision queries with arbitrary ticks, tag file read after every step.",
         design="§7 C16, §8 F8", technique="Lean 4 proof (invariant over an interleaving transition system) + differential correspondence"),
+    "C17": dict(
+        text="Lean theorems about the model of the setup tool's commands over an abstract file system (all contents, all initial "
+             "states): backup;install;restore reinstates the four system files; install places exactly the packaged files with "
+             "stop first / start last; restore without a backup is the identity; uninstall package removes the files; purge removes "
+             "only the backup; frame: no command changes any path outside the system locations and the backup folder. Tied to the REAL "
+             "proxy_agent_setup binary built from /repo, run in a private mount namespace with overlays over the system directories and "
+             "a recording stand-in systemctl: the 12 modelled files, the systemctl log and a digest of everything else are compared "
+             "after every command of generated sequences.",
+        design="§7 C17", technique="Lean 4 proof over a file-system model + differential correspondence with the real binary in a mount namespace"),
     "C18": dict(
         text="Lean theorems: xml_escape (five sequential replacements) equals the character-wise escape, its output has no markup "
              "character, decoding gives the text back; batching (model of send_events as a well-founded recursion): every batch is "
